@@ -25,6 +25,7 @@ type Features struct {
 	MaxDepth   int
 	MaxNodes   int
 	WSText     bool // text nodes rich in whitespace (for trim laws)
+	Model      bool // only constructs whose result the reference model defines
 }
 
 // StdEnv is a binding environment covering every kind; values vary with r.
@@ -187,7 +188,6 @@ var modelFilters = []struct {
 	{"times", 2, func(g *G) []Expr { return []Expr{g.numArg()} }},
 	{"join", 3, func(g *G) []Expr { return []Expr{Lit{Str([]string{",", "-", ""}[g.R.Intn(3)])}} }},
 	{"first", 3, nil}, {"last", 3, nil}, {"reverse", 3, nil}, {"compact", 3, nil},
-	{"default", 0, func(g *G) []Expr { return []Expr{g.strArg()} }},
 }
 
 // extra filters exercised only by model-free checks
@@ -196,6 +196,7 @@ var extraFilters = []struct {
 	recv int
 	args func(g *G) []Expr
 }{
+	{"default", 0, func(g *G) []Expr { return []Expr{g.strArg()} }},
 	{"capitalize", 1, nil}, {"escape", 1, nil}, {"escape_once", 1, nil}, {"lstrip", 1, nil}, {"rstrip", 1, nil},
 	{"url_encode", 1, nil}, {"url_decode", 1, nil}, {"strip_html", 1, nil}, {"strip_newlines", 1, nil}, {"newline_to_br", 1, nil},
 	{"replace", 1, func(g *G) []Expr { return []Expr{g.strArg(), g.strArg()} }},
@@ -311,6 +312,9 @@ func (g *G) Coll() Expr {
 		}
 		return Var{"sarr"}
 	case 6:
+		if g.F.Model {
+			return Var{[]string{"undefined_var", "earr", "nothing"}[r.Intn(3)]}
+		}
 		return Var{[]string{"undefined_var", "earr", "n", "s"}[r.Intn(4)]}
 	default:
 		return Prop{X: Var{"m"}, Name: "c"}
@@ -412,9 +416,13 @@ func (g *G) node(depth int) Node {
 			n.T = g.trims(3)
 			return n
 		case c == 15 && g.F.Cycle && g.loops > 0:
-			n := Cycle{Vals: []string{"a", "b", "c"}[:r.Range(1, 3)], T: g.trim()}
-			if r.Bool() {
-				n.HasGroup, n.Group = true, []string{"g1", "g2"}[r.Intn(2)]
+			// one fixed value list per group: sharing of a group between different lists is not specified
+			n := Cycle{Vals: []string{"a", "b"}, T: g.trim()}
+			switch r.Intn(3) {
+			case 1:
+				n.HasGroup, n.Group, n.Vals = true, "g1", []string{"x", "y", "z"}
+			case 2:
+				n.HasGroup, n.Group, n.Vals = true, "g2", []string{"p", "q"}
 			}
 			return n
 		case c == 16 && len(g.F.Include) > 0:
